@@ -42,6 +42,10 @@ ASSUMPTIONS = ["precondition 'genuinely symmetric' is decided by the harness (E,
                "labelled near-degenerate and not counted as non-trivial",
                "a mismatch is inconclusive when a tie witness exists: a gap within [0.5e-4, 2e-4] (degeneracy threshold 1e-4) or "
                "a band energy within 1e-9 of a node of the (extended) Fermi grid",
+               "root-cause split of a mismatch: if the per-K values of the calculator change under a random unitary rotation inside "
+               "degenerate multiplets (Data_K(random_gauge=True), the code's own covariance test option) by more than 5% of the "
+               "mismatch, the bucket gets the suffix |gauge-dependent-at-degenerate-k (the value at a degenerate k-point is then "
+               "not a function of k, so k and g k cannot agree; SDCT terms share one such bucket)",
                "tetra=True is excluded (the 12-tetrahedra split of a cell is not invariant under the group, DESIGN 7)",
                "calculators that cannot be constructed or evaluated for the model at a probe k-point (missing matrix, "
                "unsupported option) are skipped and counted"]
